@@ -373,6 +373,79 @@ def run(chk, ctx) -> None:
         chk.ob('C20.patterns', f'{ci.name}:amount_class', len(amount_classes) == 1, ci.loc,
                'every pattern of a site matches chip amounts with the same character class (stacks, antes, blinds, bets, caps alike)',
                got={k[:70]: sorted(v) for k, v in amount_classes.items()} if len(amount_classes) != 1 else 'one class')
+        # a `cards` group (shown hole cards, board cards) can spell every card the site prints: all ranks (a ten as T or as 10), all suits
+        card_sets = {}
+        for attr in list(GROUPS):
+            rx2, _ = pattern_of(sev, ci.name, attr)
+            if rx2 is None or unmatchable(rx2):
+                continue
+            try:
+                parsed = sre_parse.parse(rx2)
+            except re.error:
+                continue
+            gi = parsed.state.groupdict
+
+            def chars_of(items, acc):
+                for op, av in items:
+                    if op is sre_c.IN:
+                        for o2, a2 in av:
+                            if o2 is sre_c.LITERAL:
+                                acc.add(chr(a2))
+                            elif o2 is sre_c.RANGE:
+                                acc.update(chr(x) for x in range(a2[0], a2[1] + 1))
+                            elif o2 is sre_c.CATEGORY:
+                                acc.add(str(a2))
+                            elif o2 is sre_c.NEGATE:
+                                acc.add('<negated>')
+                    elif op is sre_c.LITERAL:
+                        acc.add(chr(av))
+                    elif op in (sre_c.MAX_REPEAT, sre_c.MIN_REPEAT):
+                        chars_of(av[2], acc)
+                    elif op is sre_c.SUBPATTERN:
+                        chars_of(av[3], acc)
+                    elif op is sre_c.BRANCH:
+                        for b in av[1]:
+                            chars_of(b, acc)
+                    elif op is sre_c.ANY:
+                        acc.add('<any>')
+                return acc
+
+            def walk2(items):
+                for op, av in items:
+                    if op is sre_c.SUBPATTERN:
+                        name = next((k for k, v in gi.items() if v == av[0]), None)
+                        if name == 'cards':
+                            card_sets[attr] = chars_of(av[3], set())
+                        walk2(av[3])
+                    elif op in (sre_c.MAX_REPEAT, sre_c.MIN_REPEAT):
+                        walk2(av[2])
+                    elif op is sre_c.BRANCH:
+                        for b in av[1]:
+                            walk2(b)
+            walk2(parsed)
+        # ... compared with the classes of the reviewed tree (pkstatic/card_classes.json): a site class never loses a character it
+        # admitted - Absolute Poker prints a ten as `10c` and needs the 0, the sites that print `Tc` never had it
+        import json as _json
+        import os as _os
+        try:
+            with open(_os.path.join(_os.path.dirname(_os.path.dirname(_os.path.abspath(__file__))), 'card_classes.json'), encoding='utf-8') as fp:
+                known_cc = _json.load(fp)
+        except OSError:
+            known_cc = {}
+        short = {}
+        for attr, cs_ in card_sets.items():
+            if '<any>' in cs_ or '<negated>' in cs_ or any('CATEGORY' in x for x in cs_):
+                continue          # (a free-text group: the card parser decides)
+            low = {c.lower() for c in cs_}
+            need = set('23456789jqka') | set('cdhs')
+            lost = set(known_cc.get(f'{ci.name}.{attr}', '')) - cs_
+            if not need <= low or lost:
+                short[attr] = ''.join(sorted((need - low) | lost))
+        chk.analysed.setdefault('card_classes', {}).update({f'{ci.name}.{attr}': ''.join(sorted(cs_)) for attr, cs_ in card_sets.items()})
+        if card_sets:
+            chk.ob('C20.patterns', f'{ci.name}:card_class', not short, ci.loc,
+                   'the character class of a `cards` group admits every rank and suit character the site prints (none that it admitted is lost)',
+                   got=short or sorted(card_sets))
         # variable tables
         vs = sev.class_attr(ci.name, 'VARIABLES')
         if isinstance(vs, dict):
